@@ -113,6 +113,24 @@ def native_replay(gosmt, mpath, m, entry, replay_path, timeout=600):
         shutil.rmtree(tmp, ignore_errors=True)
 
 
+def interpreted_replay(gosmt, mpath, entry, replay_path, v):
+    tmp_out = tempfile.mktemp(prefix="gosmt-replay-", suffix=".json")
+    try:
+        r = subprocess.run([gosmt, "run", "-manifest", mpath, "-only", entry, "-replay", replay_path, "-out", tmp_out],
+                           cwd=ROOT, env=GOENV, capture_output=True, text=True, timeout=600)
+        res = json.load(open(tmp_out))
+        for h in res.get("harnesses", []):
+            for w in h.get("violations") or []:
+                if w["kind"] == v["kind"] and w["label"] == v["label"]:
+                    return True
+    except Exception:
+        return False
+    finally:
+        if os.path.exists(tmp_out):
+            os.remove(tmp_out)
+    return False
+
+
 def observes_of(out):
     return [l.strip() for l in re.findall(r"^VERIF-OBSERVE (.*)$", out, re.M)]
 
@@ -155,6 +173,7 @@ def cmd_check(pid, tier, seed):
     known_hits = []
     inconclusive = []
     validated = 0
+    interp_replays = []
     tv_mismatch = []
     funcs = {}
     mans = manifests_of(pid)
@@ -200,6 +219,15 @@ def cmd_check(pid, tier, seed):
                     reproduced = True
                 if v["kind"] in ("panic", "deadlock") and st == "panic":
                     reproduced = True
+                mode = "native"
+                if not reproduced and (v.get("sched") or []):
+                    # schedule-dependent counterexample: the native harness runs spawned functions one after
+                    # the other, so replay it by concrete re-execution of the code's SSA under the recorded
+                    # schedule (fixed values, fixed thread choices, no solver involved)
+                    if interpreted_replay(gosmt, mpath, entry, rp, v):
+                        reproduced = True
+                        mode = "interpreted-ssa"
+                        interp_replays.append(os.path.relpath(rp, ROOT))
                 if not reproduced:
                     inconclusive.append("%s: counterexample for %s %r did not reproduce natively (native status %s) – encoder or stub mismatch; replay %s" % (entry, v["kind"], v["label"], st.split(":")[0], os.path.relpath(rp, ROOT)))
                     continue
@@ -287,6 +315,7 @@ def cmd_check(pid, tier, seed):
             "functions_encoded": lindb_funcs[:200],
             "functions_encoded_total": len(funcs),
             "exhaustive": all(h.get("exhausted") for h in all_h) and not inconclusive,
+            "replayed_by_interpreted_ssa_under_recorded_schedule": interp_replays,
             "known_findings_reproduced": [k.get("id", k.get("text", "")[:60]) for k, _, _, _ in known_hits],
             "inconclusive": inconclusive[:20],
         },
